@@ -79,6 +79,12 @@ PINNED = {
     'PGPKey.protect': '9e6d18e357fc',
     'PrivKeyV4.unlocked': '01afa6232098',
     'String2Key.parse': 'ed2d36842df8',
+    'PrivKeyV4.protected': 'a0de53a8c307',
+    'PGPKey.is_unlocked': 'ab5c0e24e60a',
+    'PGPKey.is_protected': '487fd21efa34',
+    'KeyAction.check_attributes': '5bc1ee5f304f',
+    'String2Key.__bytearray__': 'cda9d3f32607',
+    'PrivKey.__bytearray__': '32da223c6d96',
 }
 
 
@@ -86,9 +92,13 @@ def source_digests():
     from pgpy.packet.fields import PrivKey, String2Key
     from pgpy.packet.packets import PrivKeyV4
     from pgpy.pgp import PGPKey
+    from pgpy.decorators import KeyAction
     objs = {'PrivKey.encrypt_keyblob': PrivKey.encrypt_keyblob, 'PrivKey.decrypt_keyblob': PrivKey.decrypt_keyblob,
             'PrivKey.clear': PrivKey.clear, 'PGPKey.unlock': PGPKey.unlock, 'PGPKey.protect': PGPKey.protect,
-            'PrivKeyV4.unlocked': PrivKeyV4.unlocked.fget, 'String2Key.parse': String2Key.parse}
+            'PrivKeyV4.unlocked': PrivKeyV4.unlocked.fget, 'String2Key.parse': String2Key.parse,
+            'PrivKeyV4.protected': PrivKeyV4.protected.fget, 'PGPKey.is_unlocked': PGPKey.is_unlocked.fget,
+            'PGPKey.is_protected': PGPKey.is_protected.fget, 'KeyAction.check_attributes': KeyAction.check_attributes,
+            'String2Key.__bytearray__': String2Key.__bytearray__, 'PrivKey.__bytearray__': PrivKey.__bytearray__}
     out = {}
     for n, o in objs.items():
         o = getattr(o, '__wrapped__', o)
@@ -403,7 +413,7 @@ S2KHASHES = [1, 2, 3, 8, 9, 10, 11]
 
 
 def passphrases(rng):
-    return ['correct horse', 'p', 'pässwörd-ключ-密碼', 'x' * 1000 + 'é', b'raw\x00octets\xff\xfe', b'\x80' * 40,
+    return ['correct horse', 'p', 'pässwörd-ключ-密碼', 'x' * 1000 + 'é', b'raw\x00octets\xff\xfe', b'\x80' * 40, '', b'',
             ''.join(chr(rng.randrange(32, 0x2000)) for _ in range(rng.randrange(1, 30)))]
 
 
@@ -470,10 +480,15 @@ def _run(ctx, d, pgpy):
     for n, want in PINNED.items():
         if dig[n] != want:
             ctx.broken.append('pinned source text of %s changed (sha256[:12] %s, model written against %s)' % (n, dig[n], want))
-    names = [n for n in ['rsa2048', 'dsa2048', 'p256', 'ed25519'] if n in keypool.available(['rsa2048', 'dsa2048', 'p256', 'ed25519'])]
-    for n in ['rsa2048', 'dsa2048', 'p256', 'ed25519']:
+    wanted = ['rsa2048', 'dsa2048', 'p256', 'ed25519'] + ([] if ctx.quick else ['rsa3072', 'p384', 'p521', 'secp256k1', 'ed25519b', 'dsa1024', 'rsa1024'])
+    avail = keypool.available(wanted)
+    names = [n for n in wanted if n in avail]
+    for n in wanted:
         if n not in names:
             ctx.skipped.append('key %s cannot be built with the local OpenSSL' % n)
+    ctx.skipped.append('protection ciphers IDEA (PGPy refuses to encrypt with it) and Twofish (no backend): protect raises; that error path '
+                       '(it leaves usage=254 with empty ciphertext behind) is not part of the histories')
+    ctx.skipped.append('ElGamal secret keys: PGPy cannot generate them and the pool has none (layout x is covered by the theorems only)')
     pws = passphrases(rng)
     has_dec = {n: any(s[2] == 'enc' for s in keypool.SPECS[n][2]) for n in names}
 
@@ -545,6 +560,18 @@ def foreign(ctx, d, pgpy, names, pws):
             case = {'suite': 'foreign', 'key': n, 'usage': u, 'spec': sp, 'cipher': a, 'hash': h, 'count': count, 'pw': pw_json(pw), 'forms': fs}
             check_foreign(ctx, d, pgpy, suite, case, plain, orig)
             ctx.case(suite, (n, u, sp, a, h, count, repr(pw)), sample={k: case[k] for k in ('key', 'usage', 'spec', 'cipher', 'hash', 'count')})
+    # simple S2K with an empty passphrase (hash of the empty string; the F6 repair)
+    for n, u, pw in (('ed25519', 254, ''), ('rsa2048', 255, b''), ('p256', 254, b'')):
+        if n not in names:
+            continue
+        key = keypool.get(n)
+        plain = bytes(key)
+        orig = [secret_ints(pk) for pk in pkts(key)]
+        a, h = rng.choice(CIPHERS), rng.choice(S2KHASHES)
+        fs = ['S,%s,%s,0,%s,-,0,%s,-' % (hn(u), hn(a), hn(h), hx(bytes(rng.randrange(256) for _ in range(BLOCK[a])))) for _ in orig]
+        case = {'suite': 'foreign', 'key': n, 'usage': u, 'spec': 0, 'cipher': a, 'hash': h, 'count': 0, 'pw': pw_json(pw), 'forms': fs}
+        check_foreign(ctx, d, pgpy, suite, case, plain, orig)
+        ctx.case(suite, (n, u, 0, 'empty'), sample={k: case[k] for k in ('key', 'usage', 'spec', 'cipher', 'hash', 'pw')})
     # GNU dummy / smartcard stubs
     for n in names:
         for ext, serial in ((1, b''), (2, bytes(range(16))), (2, b'\x01\x02\x03')):
@@ -620,6 +647,9 @@ def check_foreign(ctx, d, pgpy, suite, case, plain, orig):
             ok = False
         except PGPError:
             pass
+        except Exception as ex:
+            ctx.fail(suite, 'locked foreign key: sign raised %r instead of refusing' % ex, case)
+            ok = False
     return ok
 
 
@@ -663,11 +693,11 @@ def check_gnu(ctx, d, pgpy, suite, case, plain):
     return ok
 
 
-def mixed(ctx, d, pgpy, pws):
+def mixed(ctx, d, pgpy, pws, only=None):
     """primary protected, one subkey not: PGPKey.unlock raises TypeError from the subkey and the finally block clears everything"""
     suite = 'mixed-protection'
     from pgpy.constants import SymmetricKeyAlgorithm, HashAlgorithm
-    for n in ('ed25519', 'p256', 'rsa2048'):
+    for n in ((only,) if only else ('ed25519', 'p256', 'rsa2048')):
         try:
             key = keypool.get(n)
         except Exception:
@@ -700,6 +730,8 @@ def replay(ctx, case):
             check_foreign(ctx, d, pgpy, 'replay', case, bytes(key), [secret_ints(pk) for pk in pkts(key)])
         elif case.get('suite') == 'gnu':
             check_gnu(ctx, d, pgpy, 'replay', case, bytes(keypool.get(case['key'])))
+        elif case.get('suite') == 'mixed':
+            mixed(ctx, d, pgpy, None, only=case['key'])
         elif 'ops' in case:
             Hist(ctx, d, pgpy, case['key'], 'replay').run(case['ops'])
         return len(ctx.violations) > before
